@@ -165,6 +165,33 @@ func InitApp(dsn string) (*App, error) {
 	return nil, nil
 }
 `, "InitApp"))
+	out = append(out, feature("bind-first-provide", "Bind listed before its provider, provider not named New<Type>", `
+func InitApp(dsn string) (*App, error) {
+	wire.Build(wire.Bind(new(Repo), new(*PG)), NewDB, NewLogger, ProvidePG, NewApp)
+	return nil, nil
+}
+`, "InitApp"))
+	out = append(out, feature("bind-first-set", "Bind listed before its provider inside a set", `
+var RepoSet = wire.NewSet(wire.Bind(new(Repo), new(*PG)), ProvidePG)
+
+func InitApp(dsn string) (*App, error) {
+	wire.Build(NewLogger, RepoSet, NewDB, NewApp)
+	return nil, nil
+}
+`, "InitApp"))
+	out = append(out, feature("bind-first-new", "Bind listed before its New<Type> provider", `
+func InitApp(dsn string) (*App, error) {
+	wire.Build(wire.Bind(new(Repo), new(*PG)), NewPG, NewDB, NewLogger, NewApp)
+	return nil, nil
+}
+`, "InitApp"))
+	// an injector whose result type is the only reference to an external package
+	out = append(out, &Config{Family: "W2", Desc: "injector result type is the only reference to an external package", Pkg: "cfg", Name: "result-external",
+		Injectors: []string{"InitBuilder"},
+		Files: map[string]string{
+			"types.go": strings.Replace(featTypes, "package cfg\n", "package cfg\n\nimport \"strings\"\n", 1) + "\nfunc NewBuilder(l *Logger) (*strings.Builder, error) { return &strings.Builder{}, nil }\n",
+			"wire.go":  "//go:build wireinject\n\npackage cfg\n\nimport (\n\t\"strings\"\n\n\t\"github.com/google/wire\"\n)\n\nfunc InitBuilder() (*strings.Builder, error) {\n\twire.Build(NewLogger, NewBuilder)\n\treturn nil, nil\n}\n",
+		}})
 	out = append(out, feature("value", "Value of a basic type", `
 func InitApp() *App {
 	wire.Build(wire.Value("svc"), NewLogger, NewAppN)
